@@ -162,6 +162,9 @@ def check_mask_stores(ctx: Ctx, term: T, typer: Typer, entry: FunctionInfo, rule
                         inst = f"store under mask {m} on axis {pos}"
                         if r_old is None or pos >= len(r_old) or r_old[pos] == "?":
                             ctx.unknown(rule, fi, node, inst, f"array roles unknown ({r_old})")
+                        elif len(r_old) == 1:
+                            ctx.check(KIND.get(r_old[0]) == "state", rule, fi, node, inst, f"state vector {r_old}",
+                                      f"a state mask indexes a vector with roles {r_old}")
                         else:
                             ctx.check(r_old[pos] == "S", rule, fi, node, inst, f"axis {pos} of {r_old} is the source-state axis",
                                       f"the current-state mask `{m}` indexes axis {pos} of an array with roles {r_old}; it must select "
@@ -330,6 +333,16 @@ def monomials(t: T, depth: int = 0) -> List[List[T]]:
         e = ext_name(t.args[0])
         f = t.args[0]
         if e in ("numpy.einsum", "torch.einsum") and t.args[1] and t.args[1][0].op == "const":
+            def _is_solved(a, d=0):
+                while a.op in ("proj", "inlined") and d < 10:
+                    a = a.args[0] if a.op == "proj" else a.args[1]
+                    d += 1
+                if a.op == "phi":
+                    return any(_is_solved(x, d + 1) for x in a.args[0])
+                return a.op == "call" and (ext_name(a.args[0]) in ("numpy.linalg.inv", "numpy.linalg.solve", "torch.linalg.solve", "torch.linalg.inv")
+                                           or (a.args[0].op == "attr" and a.args[0].args[1] == "inverse"))
+            if any(_is_solved(a) for a in t.args[1][1:]):
+                return [[t]]        # a contraction with a solved system is a value: an opaque future-value atom
             out = [[]]
             for a in t.args[1][1:]:
                 new = []
